@@ -958,6 +958,8 @@ fn exec_op(l: &mut Local, label: &str, uv: u64, op: &Op) {
             let waker = futures::task::noop_waker();
             let mut cx = Context::from_waker(&waker);
             let mut outcome: Option<bool> = None;
+            // polls == 0: poll once, pass a scheduling point, then drop WITHOUT polling again (a grant that
+            // arrives in between is never observed: the drop must give the permits back)
             for k in 0..(*polls).max(1) {
                 if k > 0 {
                     // a scheduling point without a yield request
@@ -974,6 +976,9 @@ fn exec_op(l: &mut Local, label: &str, uv: u64, op: &Op) {
                     }
                     Poll::Pending => {}
                 }
+            }
+            if outcome.is_none() && *polls == 0 {
+                thread::sleep(std::time::Duration::from_millis(1));
             }
             match outcome {
                 Some(true) => {
@@ -1557,7 +1562,7 @@ fn gen_op(
                 0 | 1 | 2 | 3 => Op::SemAcquire(sm, n),
                 4 | 5 => Op::SemTry(sm, n),
                 6 | 7 | 8 => Op::SemRelease(sm, n),
-                9 | 10 => Op::SemCancel(sm, n, 1 + rng.below(2)),
+                9 | 10 => Op::SemCancel(sm, n, rng.below(3)),
                 _ => {
                     if rng.chance(1, 3) {
                         Op::SemClose(sm)
